@@ -9,4 +9,4 @@ require (
 
 require github.com/HdrHistogram/hdrhistogram-go v1.1.2 // indirect
 
-replace github.com/talostrading/sonic => /tmp/seed/Y
+replace github.com/talostrading/sonic => /repo
